@@ -1156,7 +1156,7 @@ impl<'a> Exec<'a> {
 		}
 		let adopt_idx = (plan.adopt as usize) % snaps.len();
 		let old_live = self.live.clone();
-		let mut adopted: Option<usize> = None;
+		let mut adopted: Option<(usize, String)> = None;
 		for (i, s) in snaps.iter().enumerate() {
 			let mid = s.step_event_index != u32::MAX;
 			if mid {
@@ -1195,15 +1195,13 @@ impl<'a> Exec<'a> {
 			let dir = s.dir.clone();
 			if keep && plan.recrash > 0 {
 				// crash again during recovery of this image
-				if let Some(j) = self.recrash(&dir, lo_i, hi, &kind, plan.recrash, power) {
-					adopted = Some(j);
-				}
+				adopted = self.recrash(&dir, lo_i, hi, &kind, plan.recrash, power);
 				continue
 			}
 			let r = self.verify_image(&dir, lo_i, hi, &ctx, power);
 			if keep {
 				if let Some(j) = r {
-					adopted = Some(j);
+					adopted = Some((j, dir.clone()));
 					continue
 				}
 			}
@@ -1217,10 +1215,9 @@ impl<'a> Exec<'a> {
 			let _ = std::fs::remove_dir_all(&old_live);
 		});
 		match adopted {
-			Some(j) => {
+			Some((j, dir)) => {
 				// self.live / self.db currently point at the adopted image only if it was the
 				// last one verified; reopen if needed.
-				let dir = snaps[adopt_idx].dir.clone();
 				if self.live != dir || self.db.is_none() {
 					self.abandon_db();
 					self.live = dir.clone();
@@ -1242,7 +1239,7 @@ impl<'a> Exec<'a> {
 	}
 
 	/// Recovery of `dir` is itself interrupted: images are taken during Db::open.
-	fn recrash(&mut self, dir: &str, lo: usize, hi: usize, kind: &SnapKind, depth: u8, power: bool) -> Option<usize> {
+	fn recrash(&mut self, dir: &str, lo: usize, hi: usize, kind: &SnapKind, depth: u8, power: bool) -> Option<(usize, String)> {
 		self.live = dir.to_string();
 		simdisk::with(|d| {
 			d.set_root(dir);
@@ -1294,7 +1291,13 @@ impl<'a> Exec<'a> {
 				let _ = std::fs::remove_dir_all(&d);
 			});
 		}
-		adopted.map(|(j, _)| j)
+		if snaps.is_empty() {
+			// recovery produced no crash point (nothing to replay): the image was verified by
+			// the plain open above only if it succeeded; re-verify a fresh copy is not possible
+			// any more, so give up on this run's continuation.
+			return None
+		}
+		adopted
 	}
 
 	// -- commit ---------------------------------------------------------------------------------
@@ -1492,3 +1495,17 @@ pub fn short_hex(k: &[u8]) -> String {
 
 #[allow(dead_code)]
 fn unused(_: HashSet<u8>) {}
+
+impl<'a> Drop for Exec<'a> {
+	fn drop(&mut self) {
+		if std::thread::panicking() {
+			// parity-db panicked: its state may be inconsistent and its own Drop could panic
+			// again (abort). Leak the handle instead.
+			for it in self.iters.iter_mut() {
+				std::mem::forget(it.take());
+			}
+			crate::treeops::forget_all(self);
+			std::mem::forget(self.db.take());
+		}
+	}
+}
